@@ -443,6 +443,8 @@ func c11Raw(w *c11World, ctx *rt.Ctx) *rt.Violation {
 		{"a = $09 & ^ b = $0010 ; g", "a = " + q(9) + " & ^ b = " + q(10) + " ; g", 10},
 		{"a = $007 | a = $10", "a = " + q(7) + " | a = " + q(10), 10},
 		{"a = $08", "a = " + q(8), 8},
+		{strings.Repeat("^ ( ", 40) + "a = $1 | b = $2" + strings.Repeat(" )", 40), strings.Repeat("^ ( ", 40) + "a = " + q(1) + " | b = " + q(2) + strings.Repeat(" )", 40), 2},
+		{strings.Repeat("( ", 35) + "a = $2 & ^ b = $1" + strings.Repeat(" )", 35) + " ; g", strings.Repeat("( ", 35) + "a = " + q(2) + " & ^ b = " + q(1) + strings.Repeat(" )", 35) + " ; g", 2},
 		{"a = $4294967297", "!error", 1},
 		{"a = $2147483648 | b = $1", "!error", 2},
 	}
